@@ -543,4 +543,27 @@ Proof.
     apply Hz. rewrite Er. apply filter_In. split; [exact Hr | apply zmem_In; exact Hin].
 Qed.
 
+(* what the removals remove is gone *)
+Definition is_removal (a : action) : bool :=
+  match a with BulkRemoveRecord _ _ _ | RemoveColumn _ _ _ | RemoveTable _ _ => true | _ => false end.
+
+Lemma removed_gone : forall a s s' o t c r,
+  apply_doc O a s = Ok (s', o) -> is_removal a = true -> touch a t c r -> cellv s' t c r = None.
+Proof.
+  intros a s s' o t c r H Hrm Ht. destruct a; try discriminate; cbn [touch] in Ht.
+  - destruct Ht as [-> Hr]. eapply rmrec_gone; eassumption.
+  - destruct Ht as [-> ->]. unfold apply_doc in H.
+    destruct (find_table O s t0) as [T|] eqn:Ef; [|discriminate].
+    pose proof (find_table_id O _ _ _ Ef) as HidT.
+    destruct (find_col O (t_cols O T) c0) as [C0|] eqn:Ec0; [|discriminate].
+    assert (Hs' : s' = put_table O s t0 (mkTab O (t_id O T) (t_rows O T) (drop_col O (t_cols O T) c0))).
+    { match type of H with context [match ?l with [] => _ | _ => _ end] => destruct l end;
+        [|destruct (ci_isformula (c_info O C0))]; inversion H; reflexivity. }
+    subst s'. rewrite (cellv_put_same _ _ T) by (try exact Ef; exact HidT). cbn [t_cols].
+    rewrite (find_drop_col O), name_eqb_refl. reflexivity.
+  - subst t. unfold apply_doc in H. destruct (find_table O s t0) as [T|] eqn:Ef; [|discriminate].
+    assert (Hs' : s' = drop_table O s t0) by (destruct (t_rows O T); inversion H; reflexivity).
+    subst s'. unfold cellv. rewrite (find_drop_table O), name_eqb_refl. reflexivity.
+Qed.
+
 End Frame.
